@@ -123,6 +123,34 @@ func RunVerifier(cfg *engine.Config, tmpl, asg *data.Loaded) error {
 	return solve(mk(tmpl), mk(asg))
 }
 
+// VC2 verifies two proofs of the same inner circuit with ONE verifier chip (what a batching caller would do): nothing the chip
+// remembers from the first proof may weaken the checks of the second.
+type VC2 struct {
+	A, B verifier.VerifierCircuit
+	Cfg  *engine.Config `gnark:"-"`
+}
+
+func (c *VC2) Define(api frontend.API) error {
+	p := engine.Wrap(api, c.Cfg)
+	chip := verifier.NewVerifierChip(p, c.A.CommonCircuitData)
+	chip.Verify(c.A.Proof, c.A.PublicInputs, c.A.VerifierData)
+	chip.Verify(c.B.Proof, c.B.PublicInputs, c.B.VerifierData)
+	c.Cfg.Emit("enddefine")
+	c.Cfg.EndOfDefine()
+	return nil
+}
+
+// RunVerifierTwo evaluates VC2 on (a, b); both must belong to the same inner circuit.
+func RunVerifierTwo(cfg *engine.Config, a, b *data.Loaded) error {
+	mk := func(x, y *data.Loaded) *VC2 {
+		f := func(l *data.Loaded) verifier.VerifierCircuit {
+			return verifier.VerifierCircuit{PublicInputs: l.PWPI.PublicInputs, Proof: l.PWPI.Proof, VerifierData: l.VD, CommonCircuitData: l.Common}
+		}
+		return &VC2{A: f(x), B: f(y), Cfg: cfg}
+	}
+	return solve(mk(a, b), mk(a, b))
+}
+
 // RunFixed evaluates CircuitFixed with the given four public values.
 func RunFixed(cfg *engine.Config, tmpl, asg *data.Loaded, pub [4]*big.Int) error {
 	mk := func(l *data.Loaded) *FC {
